@@ -403,7 +403,9 @@ func (e *E) pathsOfHit(h Hit) ([]string, bool) {
 		case "Validate":
 			switch h.ID {
 			case "VInt":
-				match = fc.F.Kind == KVInt || fc.F.Kind == KSVInt || fc.F.Kind == KInner || fc.F.Kind == KPInner
+				match = fc.F.Kind == KVInt || fc.F.Kind == KSVInt || fc.F.Kind == KMVInt || fc.F.Kind == KInner || fc.F.Kind == KPInner
+			case "PI":
+				match = fc.F.Kind == KPI
 			case "VStr":
 				match = fc.F.Kind == KVStr
 			case "Inner":
@@ -422,12 +424,12 @@ func (e *E) pathsOfHit(h Hit) ([]string, bool) {
 		}
 		paths = append(paths, fc.Path)
 		switch fc.F.Kind {
-		case KSVInt, KSInt, KSStr, KA2:
+		case KSVInt, KSInt, KSStr, KA2, KPSInt:
 			// the field's validators are also applied to each element, which is then named
 			for i := 0; i < 6; i++ {
 				paths = append(paths, fc.Path+"."+itoa(i))
 			}
-		case KMInt, KMIface:
+		case KMInt, KMIface, KMVInt:
 			paths = append(paths, fc.Path+".p", fc.Path+".q", fc.Path+".z")
 		case KMSlice:
 			for _, k := range []string{"p", "q", "z"} {
@@ -469,7 +471,7 @@ func (e *E) pathsOfHit(h Hit) ([]string, bool) {
 // Validate method must have had it called.
 func (e *E) checkTraversal(result reflect.Value, log []Hit) {
 	seenCheck := map[string][]string{}
-	seenValidate := map[string]map[string]bool{"VInt": {}, "VStr": {}, "Inner": {}, "TopV": {}}
+	seenValidate := map[string]map[string]bool{"VInt": {}, "VStr": {}, "Inner": {}, "TopV": {}, "PI": {}}
 	for _, h := range log {
 		switch h.Kind {
 		case "simcheck":
@@ -512,6 +514,18 @@ func (e *E) checkTraversal(result reflect.Value, log []Hit) {
 			case KVStr:
 				if !seenValidate["VStr"][f.String()] {
 					e.fail("validators-run", "Unpack", map[string]string{"field": fc.Path, "kind": fc.F.Kind.String()}, "Unpack succeeded but Validate() was never called on the final value %q of field %s (%s)", f.String(), fc.Path, fc.F.Kind)
+				}
+			case KPI:
+				if !seenValidate["PI"][fmt.Sprint(f.Int())] {
+					e.fail("validators-run", "Unpack", map[string]string{"field": fc.Path, "kind": fc.F.Kind.String()}, "Unpack succeeded but Validate() was never called on the final value %d of field %s (%s, pre-filled=%v, mentioned=%v)", f.Int(), fc.Path, fc.F.Kind, fc.Pre, fc.Mention)
+				}
+			case KMVInt:
+				keys := f.MapKeys()
+				sort.Slice(keys, func(a, b int) bool { return keys[a].String() < keys[b].String() })
+				for _, k := range keys {
+					if x := f.MapIndex(k).Int(); !seenValidate["VInt"][fmt.Sprint(x)] {
+						e.fail("validators-run", "Unpack", map[string]string{"field": fc.Path, "kind": fc.F.Kind.String()}, "Unpack succeeded but Validate() was never called on entry %q (= %d) of field %s (%s, pre-filled=%v, mentioned=%v)", k.String(), x, fc.Path, fc.F.Kind, fc.Pre, fc.Mention)
+					}
 				}
 			case KSVInt:
 				for j := 0; j < f.Len(); j++ {
